@@ -425,6 +425,12 @@ Definition handle_reexport (s : state) (cur : oid) (exports : list N) (orgname a
     match ob with
     | None => (s, false)
     | Some c =>
+      (* a root module cannot be moved into another module: reported, not re-exported *)
+      let is_root := match objs s c with
+                     | Some cb => match o_parent cb with None => true | Some _ => false end
+                     | None => false end in
+      if is_root then (s, false)
+      else
       let listed := match objs s origin with
                     | Some gb => match o_all gb with Some a => memN orgname a | None => false end
                     | None => false end in
